@@ -1097,7 +1097,7 @@ def run(ctx):
             go(calls, sampled_plan(rng, 4, conts, 6, 2, 4), "very-long-lines")
         # 4b. bursts: thousands of records logged in a tight loop, faster than the writer thread compresses them - every one must be
         #     in the file, in order (the hand-over queue between the logging call and the writer is unbounded)
-        for k in ctx.pick([12000], [12000, 60000]):
+        for k in ctx.pick([50000], [50000, 150000]):
             part_burst(env, ctx, k)
         # 5. the real entry point as a process: stdin container and files
         for i in range(ctx.pick(6, 40)):
